@@ -49,7 +49,7 @@ where
 }
 
 /// honest single-polynomial opening: shape of the proof against t and the transcript-derived positions
-fn proofshape<L, P>(c: &Case, out: &mut Out, poly: P, point: P::Point)
+fn proofshape<L, P>(c: &Case, out: &mut Out, poly: P, point: P::Point, pp_override: Option<L::LinCodePCParams>)
 where
     P: ark_poly::Polynomial<Fr> + Clone,
     P::Point: Clone,
@@ -60,7 +60,10 @@ where
     type PCS<L, P> = LinearCodePCS<L, Fr, P, MTConfig, ColH<Fr>>;
     let mut rng = CountingRng::new(c.u64_1("seed"));
     let nv = if c.str1("num_vars") == "none" { None } else { Some(c.usize1("num_vars")) };
-    let pp = match guard_any(|| PCS::<L, P>::setup(c.usize1("max_degree"), nv, &mut rng)).ok() { Some(p) => p, None => { out.obs1("setup", "S", "refused".into()); return; } };
+    let pp = match pp_override {
+        Some(p) => p,
+        None => match guard_any(|| PCS::<L, P>::setup(c.usize1("max_degree"), nv, &mut rng)).ok() { Some(p) => p, None => { out.obs1("setup", "S", "refused".into()); return; } },
+    };
     let (ck, vk) = PCS::<L, P>::trim(&pp, pp.max_degree(), 0, None).unwrap();
     let lp = LabeledPolynomial::new("p".into(), poly.clone(), None, None);
     let (cm, st) = PCS::<L, P>::commit(&ck, [&lp], None).unwrap();
@@ -101,9 +104,9 @@ pub fn run(c: &Case, out: &mut Out) {
             use crate::schemes::{BrakedownMLA, LigeroMLA, LigeroUniA};
             let nv = if c.str1("num_vars") == "none" { None } else { Some(c.usize1("num_vars")) };
             match c.str1("scheme") {
-                "ligero_uni" => proofshape::<UnivariateLigero<Fr, MTConfig, UniPoly, ColH<Fr>>, UniPoly>(c, out, LigeroUniA::make_poly(c.get("poly"), nv), LigeroUniA::make_point(c.get("pt"))),
-                "ligero_ml" => proofshape::<MultilinearLigero<Fr, MTConfig, SparseMultilinearExtension<Fr>, ColH<Fr>>, SparseMultilinearExtension<Fr>>(c, out, LigeroMLA::make_poly(c.get("poly"), nv), LigeroMLA::make_point(c.get("pt"))),
-                "brakedown_ml" => proofshape::<MultilinearBrakedown<Fr, MTConfig, SparseMultilinearExtension<Fr>, ColH<Fr>>, SparseMultilinearExtension<Fr>>(c, out, BrakedownMLA::make_poly(c.get("poly"), nv), BrakedownMLA::make_point(c.get("pt"))),
+                "ligero_uni" => proofshape::<UnivariateLigero<Fr, MTConfig, UniPoly, ColH<Fr>>, UniPoly>(c, out, LigeroUniA::make_poly(c.get("poly"), nv), LigeroUniA::make_point(c.get("pt")), crate::schemes::ligero_params(c)),
+                "ligero_ml" => proofshape::<MultilinearLigero<Fr, MTConfig, SparseMultilinearExtension<Fr>, ColH<Fr>>, SparseMultilinearExtension<Fr>>(c, out, LigeroMLA::make_poly(c.get("poly"), nv), LigeroMLA::make_point(c.get("pt")), crate::schemes::ligero_params(c)),
+                "brakedown_ml" => proofshape::<MultilinearBrakedown<Fr, MTConfig, SparseMultilinearExtension<Fr>, ColH<Fr>>, SparseMultilinearExtension<Fr>>(c, out, BrakedownMLA::make_poly(c.get("poly"), nv), BrakedownMLA::make_point(c.get("pt")), None),
                 s => panic!("unknown scheme {}", s),
             }
         }
